@@ -27,6 +27,8 @@ type specCtx struct {
 	self   string                          // for type invariants
 	pkg    *Pkg                            // package whose scope resolves constants
 	errs   *[]string
+	inPure  bool
+	classOf func(param string) *Term // payload class of a parameter (0 literal, 1 type/diagnostic, 2 operand)
 }
 
 func (c *specCtx) errorf(format string, a ...interface{}) {
@@ -248,6 +250,13 @@ func (c *specCtx) ident(name string) Value {
 			return v
 		}
 	}
+	for _, ip := range pkg.Types.Imports() {
+		if obj, ok := ip.Scope().Lookup(name).(*types.Const); ok && obj.Exported() {
+			if v, ok := c.object(obj); ok {
+				return v
+			}
+		}
+	}
 	c.errorf("spec: unknown identifier %q", name)
 	return intV(IntLit(0))
 }
@@ -422,10 +431,27 @@ func (c *specCtx) call(x *SExpr) Value {
 		}
 		switch v.K {
 		case VPtr, VStruct:
-			return boolV(Ge(v.T, e.nextObj().Subst(c.oldMap)))
+			return boolV(And(Ge(v.T, e.nextObj().Subst(c.oldMap)), Lt(v.T, e.nextObj())))
 		case VSlice:
-			return boolV(Ge(v.Ref, e.nextRef().Subst(c.oldMap)))
+			return boolV(And(Ge(v.Ref, e.nextRef().Subst(c.oldMap)), Lt(v.Ref, e.nextRef())))
 		}
+	case "memKeptExcept":
+		// memKeptExcept(x, ...): every pre-existing byte array other than those of the listed slices is unchanged
+		if c.oldMap == nil {
+			return boolV(True)
+		}
+		r := Bound("r$", SInt)
+		oldMem := e.mem().Subst(c.oldMap)
+		conds := []*Term{Lt(r, e.nextRef().Subst(c.oldMap))}
+		for _, a := range x.Args {
+			v := c.tr(a)
+			if v.K != VSlice {
+				c.errorf("memKeptExcept: %s is not a slice", a.String())
+				continue
+			}
+			conds = append(conds, Ne(r, v.Ref))
+		}
+		return boolV(Forall([]*Term{r}, Implies(And(conds...), Eq(Select(e.mem(), r), Select(oldMem, r)))))
 	case "memUnchanged":
 		// memUnchanged(): no pre-existing byte array was written
 		if c.oldMap == nil {
@@ -450,6 +476,25 @@ func (c *specCtx) call(x *SExpr) Value {
 		case VSlice:
 			return boolV(Eq(v.Ref, IntLit(0)))
 		}
+	}
+	if pd, ok := e.w.Cs.Preds[x.Name]; ok {
+		if len(pd.Params) != len(x.Args) {
+			c.errorf("spec: pred %s expects %d arguments", pd.Name, len(pd.Params))
+			return boolV(True)
+		}
+		names := map[string]Value{}
+		for i, p := range pd.Params {
+			names[p] = c.tr(x.Args[i])
+		}
+		sub := &specCtx{e: e, names: names, bound: c.bound, oldMap: c.oldMap, pkg: e.w.Pkgs[pd.Pkg], errs: c.errs, classOf: c.classOf}
+		return sub.tr(pd.Body)
+	}
+	if x.Name == "$class" && len(x.Args) == 1 && x.Args[0].Kind == "id" {
+		if c.classOf != nil {
+			return intV(c.classOf(x.Args[0].Name))
+		}
+		c.errorf("$class used outside a call contract")
+		return intV(IntLit(2))
 	}
 	if fn, ok := specFns[x.Name]; ok {
 		var args []*Term
@@ -559,6 +604,42 @@ func (c *specCtx) pureCall(x *SExpr) (Value, bool) {
 }
 
 func (c *specCtx) pureValue(key string, args []*Term) Value {
+	v := c.pureValue0(key, args)
+	// the assumed postconditions of a pure function hold for every ground application
+	fc := c.e.w.Cs.Funcs[key]
+	ground := true
+	for _, a := range args {
+		if a.hasBound() {
+			ground = false
+		}
+	}
+	if fc != nil && ground && !c.inPure {
+		names := map[string]Value{}
+		for i, n := range fc.Params {
+			if i < len(args) && n != "_" {
+				// arguments were boxed; unbox integers for use in the clauses
+				if args[i].Op == "app" && args[i].Name == "box$int" {
+					names[n] = intV(args[i].Args[0])
+				} else {
+					names[n] = uV(args[i])
+				}
+			}
+		}
+		names["result"] = v
+		if len(fc.Results) == 1 && fc.Results[0] != "_" {
+			names[fc.Results[0]] = v
+		}
+		sub := &specCtx{e: c.e, names: names, bound: map[string]*Term{}, pkg: c.pkg, inPure: true}
+		for _, cl := range fc.Clauses {
+			if cl.Kind == "ensures" {
+				c.e.assume(sub.boolTerm(cl.Expr))
+			}
+		}
+	}
+	return v
+}
+
+func (c *specCtx) pureValue0(key string, args []*Term) Value {
 	res, ok := c.e.w.pureResult[key]
 	if !ok {
 		res = c.e.w.pureSortOf(key)
@@ -569,7 +650,11 @@ func (c *specCtx) pureValue(key string, args []*Term) Value {
 	case SInt:
 		return intV(App("pure$"+key, SInt, args...))
 	}
-	return uV(App("pure$"+key, SU, args...))
+	u := App("pure$"+key, SU, args...)
+	if fc := c.e.w.Cs.Funcs[key]; fc != nil && strings.HasSuffix(strings.TrimSpace(fc.Header), "string") {
+		return Value{K: VStr, Arr: App("unbox$str.arr", SArr, u), Off: App("unbox$str.off", SInt, u), Len: App("unbox$str.len", SInt, u)}
+	}
+	return uV(u)
 }
 
 // pureSortOf derives the result sort of a pure function from its contract header.
